@@ -42,10 +42,27 @@ int main(int argc, char **argv) {
         for (int i = 0; i < nops; i++) {
             Op op; if (i == 0) op.kind = OP_LOAD; else op = decode_op(s, st.spec, kinds);
             if ((op.kind == OP_REF_ANISO || op.kind == OP_UPDATE) && (st.spec.family == F_LOCALP || st.spec.family == F_WAVE)) op.kind = OP_REF_SURP;
-            if (op.kind == OP_REF_SURP) op.variant &= ~1;   // palette tolerances only: a tolerance equal to a coefficient could legitimately flip with the rounding of a reduction
+            if (op.kind == OP_REF_SURP) {
+                op.variant &= ~1;   // never a tolerance EQUAL to a coefficient (the rounding of a reduction could legitimately flip the decision) ...
+                // ... but a selective one placed in the middle of a gap (relative width > 1e-4) of the sorted normalised coefficients, so that adaptive
+                // hierarchies with gaps are produced; the choice is made on this build's coefficients and is identical across builds unless they already differ
+                auto &g = st.g; int n = g.getNumLoaded(), outs = g.getNumOutputs();
+                if (n > 4 && outs > 0 && (s.byte() % 3) != 0) { const double *cf = g.getHierarchicalCoefficients(), *vl = g.getLoadedValues(); std::vector<double> nm((size_t)outs, 0.0), cr((size_t)n, 0.0);
+                    for (int q = 0; q < n; q++) for (int k = 0; k < outs; k++) nm[(size_t)k] = std::max(nm[(size_t)k], std::fabs(vl[(size_t)q * (size_t)outs + (size_t)k]));
+                    for (int q = 0; q < n; q++) for (int k = 0; k < outs; k++) if (nm[(size_t)k] > 0) cr[(size_t)q] = std::max(cr[(size_t)q], std::fabs(cf[(size_t)q * (size_t)outs + (size_t)k]) / nm[(size_t)k]);
+                    std::sort(cr.begin(), cr.end()); size_t from = (size_t)((double)(n - 1) * (0.5 + 0.1 * (double)(s.byte() % 5)));
+                    for (size_t q = from; q + 1 < (size_t)n; q++) if (cr[q] > 0 && cr[q + 1] > cr[q] * (1.0 + 1e-4)) { op.tol = std::sqrt(cr[q] * cr[q + 1]); op.output = -1; break; } }
+                // level limits make the OpenMP-only candidate collection take its limited branch
+                if (op.limits.empty() && (s.byte() % 2)) { op.limits = decode_limits(s, st.spec.dims); bool any = false; for (int l : op.limits) if (l >= 0) any = true; if (!any) op.limits[0] = 1 + (int)(s.byte() % 3); }
+            }
+            bool local_fam = st.spec.family == F_LOCALP || st.spec.family == F_WAVE;
+            if (op.kind == OP_REF_SURP && local_fam && (s.byte() % 2)) op.crit = refine_classic;   // the criterion that leaves gaps in the hierarchy
             if (!apply_op(st, op)) continue;
             transcript(st, st.trace.back().c_str());
-            if ((op.kind == OP_REF_SURP || op.kind == OP_REF_ANISO || op.kind == OP_UPDATE) && st.g.getNumNeeded() > 0 && st.g.getNumLoaded() + st.g.getNumNeeded() < 2 * so.cap) { Op ld; ld.kind = OP_LOAD; if (apply_op(st, ld)) transcript(st, "Load"); }
+            if ((op.kind == OP_REF_SURP || op.kind == OP_REF_ANISO || op.kind == OP_UPDATE) && st.g.getNumNeeded() > 0 && st.g.getNumLoaded() + st.g.getNumNeeded() < 2 * so.cap) { Op ld; ld.kind = OP_LOAD; if (apply_op(st, ld)) transcript(st, "Load");
+                // further adaptive rounds with the same settings (local families): incomplete hierarchies appear from the second round on
+                int more = (op.kind == OP_REF_SURP && local_fam) ? (int)(s.byte() % 3) : 0;
+                for (int r = 0; r < more && st.g.getNumLoaded() < 2 * so.cap; r++) { Op again = op; again.limits.clear(); if (!apply_op(st, again) || st.g.getNumNeeded() == 0) break; transcript(st, "RefSurp(again)"); if (apply_op(st, ld)) transcript(st, "Load"); } }
         }
         printf("END\n");
     } catch (Discard &) { printf("DISCARD\n"); }
